@@ -4,8 +4,8 @@ from kani import Harness
 PROPERTY = {
     "title": "request frames on the wire say exactly what the caller asked for",
     "level": "other",
-    "level_text": "Deductive proof (unbounded sizes, all field combinations) for the parts claimed: Verus proves on the extracted real writers that write_int/long/short/bytes/short_bytes/string/long_string/consistency/serial_consistency append exactly the CQL v4 encodings and refuse (writing nothing) lengths that do not fit 16/32 bits; that QueryParameters::serialize emits <consistency><flags>[values][page_size][paging_state][serial_consistency][timestamp] with the flag byte equal to exactly the presence bits, for all 2^6 option subsets and all values; that QUERY/PREPARE bodies are <long string>[<query_parameters>], the EXECUTE body is <id>[<result_metadata_id>]<query_parameters>, BATCH statement entries are <kind><string or id>, OPTIONS is empty, AUTH_RESPONSE is <token: [bytes]> (null when absent), a [string list] (REGISTER's body format) is <n>[string]*n in order, the STARTUP body is the [string map] of the options with every option exactly once, the REGISTER body is the [string list] of the requested event type names in order; and that SerializedRequest::make writes version 4, flags = exactly compression|tracing, the request type's opcode, a length field equal to the body size and (uncompressed) the serialized body, set_stream changing only the two stream bytes. The specification side is an independent transcription of native_protocol_v4.spec as Verus spec functions.",
-    "level_note": "Trusted: Verus/Z3; bytes::BufMut modelled as an append-only big-endian sink (trait contract), Cow deref, AsRef<[u8]> (Vec<u8> = its content), AsRef<str>, vstd's std HashMap model incl. obeys_key_model for Cow<str> keys (precondition), &String -> &str, &Vec<String> -> &[String], Display of EventType (uninterpreted name), str::len, slice copy, to_be_bytes as external_body contracts; lz4/snappy only assumed to append. Not covered: the BATCH envelope (generic iterator code), RegisterV2, compressed body round trip, session-level choice of parameters.",
+    "level_text": "Deductive proof (unbounded sizes, all field combinations) for the parts claimed: Verus proves on the extracted real writers that write_int/long/short/bytes/short_bytes/string/long_string/consistency/serial_consistency append exactly the CQL v4 encodings and refuse (writing nothing) lengths that do not fit 16/32 bits; that QueryParameters::serialize emits <consistency><flags>[values][page_size][paging_state][serial_consistency][timestamp] with the flag byte equal to exactly the presence bits, for all 2^6 option subsets and all values; that QUERY/PREPARE bodies are <long string>[<query_parameters>], the EXECUTE body is <id>[<result_metadata_id>]<query_parameters>, BATCH statement entries are <kind><string or id> and the whole BATCH envelope is <type><n> entries <consistency><flags>[serial][timestamp] with one entry per statement in order, OPTIONS is empty, AUTH_RESPONSE is <token: [bytes]> (null when absent), a [string list] (REGISTER's body format) is <n>[string]*n in order, the STARTUP body is the [string map] of the options with every option exactly once, the REGISTER body is the [string list] of the requested event type names in order; and that SerializedRequest::make writes version 4, flags = exactly compression|tracing, the request type's opcode, a length field equal to the body size and (uncompressed) the serialized body, set_stream changing only the two stream bytes. The specification side is an independent transcription of native_protocol_v4.spec as Verus spec functions.",
+    "level_note": "Trusted: Verus/Z3; bytes::BufMut modelled as an append-only big-endian sink (trait contract), Cow deref, AsRef<[u8]> (Vec<u8> = its content), AsRef<str>, vstd's std HashMap model incl. obeys_key_model for Cow<str> keys (precondition), &String -> &str, &Vec<String> -> &[String], Display of EventType (uninterpreted name), str::len, slice copy, to_be_bytes as external_body contracts; lz4/snappy only assumed to append. Not covered: the value bytes inside BATCH entries, RegisterV2, compressed body round trip, session-level choice of parameters.",
     "technique": "contract-based deductive verification: Verus ensures == protocol spec functions on extracted writer functions",
     "explanation": "claimed parts are deductive proofs; remaining request kinds listed under not_covered",
     "verus": [
@@ -20,6 +20,8 @@ PROPERTY = {
             "write_bytes_opt": "Some(b) -> [int] len ++ b, None -> [int] -1; len > i32::MAX refused, nothing written",
             "write_string_map": "[string map] == [short] n ++ every entry of the map exactly once as <key [string]><value [string]> (in the hash map's iteration order: an enumeration of the map without duplicates); oversize refused",
             "Startup::serialize": "STARTUP body == the [string map] of the options: every option exactly once, nothing else",
+            "Batch::do_serialize": "BATCH body == <type [byte]><n [short]> n entries then <consistency [short]><flags [byte]>[<serial consistency [short]>][<timestamp [long]>]: as many entries as statements, the i-th entry starts with the i-th statement's <kind><string | id> followed by a 2-byte value count and the values; flags == exactly the presence bits 0x10 | 0x20; type byte per BatchType; more than 65535 statements refused (existential over the per-entry value bytes, loop invariant with a ghost sequence of entries; the back-patched count field is proved to overwrite exactly the two reserved bytes)",
+            "Batch::serialize": "as do_serialize, through the error conversion",
             "Register::serialize": "REGISTER body == [string list] of the protocol names of the requested event types, in order (loop invariant over the constructed name list)",
             "write_string_list": "[string list] == [short] n ++ the n strings as [string], in order (loop invariant over the list prefix); Ok <=> n and every string fit 16 bits",
             "SerializedRequest::make": "header: version 4, flags exactly compression|tracing, opcode, length == body size; body == request serialization when uncompressed",
@@ -35,5 +37,5 @@ PROPERTY = {
     ],
     "trusted_base": ["Verus/Z3 soundness", "bytes::BufMut append-only big-endian contract", "Cow<T> deref, str::len, to_be_bytes, slice copy_from_slice (external_body)", "compress_append only appends"],
     "assumptions": ["obeys_key_model::<Cow<str>>() (precondition of the STARTUP contract: the option keys behave as hash-map keys)", "the extractor's name-impl-trait and iter-map-collect rules", "Display of EventType is an uninterpreted name"],
-    "not_covered": ["Batch::do_serialize envelope (iterator/trait-object plumbing Verus rejects), RegisterV2 (same code shape as Register, not extracted)", "LZ4/Snappy round trip", "bodies >= 4 GiB (length cast truncates; far above the protocol's frame limit)"],
+    "not_covered": ["the value bytes inside a BATCH entry (produced by the RawBatchValues iterator: only append-only-ness is assumed) and that the 2-byte count equals the number of values written (RowWriter::value_count, proved in the C01 unit); RegisterV2 (same code shape as Register, not extracted)", "LZ4/Snappy round trip", "bodies >= 4 GiB (length cast truncates; far above the protocol's frame limit)"],
 }
